@@ -313,6 +313,11 @@ private:
             this->_mask.red.shift   = detail::trailing_zeros( this->_mask.red.mask   );
             this->_mask.green.shift = detail::trailing_zeros( this->_mask.green.mask );
             this->_mask.blue.shift  = detail::trailing_zeros( this->_mask.blue.mask  );
+
+            // an empty mask shifts by 32, a mask wider than a byte by unsigned( 8 - width )
+            io_error_if(  this->_mask.red.mask == 0 || this->_mask.green.mask == 0 || this->_mask.blue.mask == 0
+                       || this->_mask.red.width > 8 || this->_mask.green.width > 8 || this->_mask.blue.width > 8
+                       , "Unsupported BMP bit field masks." );
         }
         else if( this->_info._compression == bmp_compression::_rgb )
         {
